@@ -152,6 +152,71 @@ fn drive(base: &[u8], mut it: TcpOptionsIterator) -> (String, Vec<TcpOptionEleme
     (s, oks)
 }
 
+/// a reader that hands out at most 3 bytes per call (sockets and chained readers do that)
+struct Dribble<'a>(&'a [u8]);
+impl<'a> std::io::Read for Dribble<'a> {
+    fn read(&mut self, buf: &mut [u8]) -> std::io::Result<usize> {
+        let n = buf.len().min(3).min(self.0.len());
+        buf[..n].copy_from_slice(&self.0[..n]);
+        self.0 = &self.0[n..];
+        Ok(n)
+    }
+}
+
+fn elems_of(it: TcpOptionsIterator) -> String {
+    let mut out = Vec::new();
+    for (i, x) in it.enumerate() {
+        if i > 64 {
+            out.push("runaway".to_string());
+            break;
+        }
+        out.push(show_item(&x));
+    }
+    out.join(",")
+}
+
+fn header_doors(area: &[u8]) -> Vec<String> {
+    let want = elems_of(TcpOptionsIterator::from_slice(area));
+    let mut diffs = Vec::new();
+    // reserved bits of byte 12 set, some payload behind the header
+    for (rsv, payload) in [(0u8, &b""[..]), (0x0e, &[0xaa, 0xbb, 0xcc, 0xdd, 0xee][..]), (0x08, &[1, 1, 1][..])] {
+        let mut h = vec![0u8; 20];
+        h[0..4].copy_from_slice(&[0x12, 0x34, 0x56, 0x78]);
+        h[12] = ((((20 + area.len()) / 4) as u8) << 4) | rsv;
+        h[13] = 0x10;
+        h.extend_from_slice(area);
+        let hl = h.len();
+        let mut all = h.clone();
+        all.extend_from_slice(payload);
+        let mut chk = |name: &str, got: Option<String>| {
+            if got.as_deref() != Some(want.as_str()) {
+                diffs.push(format!("{}(rsv={})={}", name, rsv, got.unwrap_or_else(|| "err".to_string())));
+            }
+        };
+        chk("tcp_slice", TcpSlice::from_slice(&all).ok().map(|s| elems_of(s.options_iterator())));
+        chk(
+            "tcp_slice_payload_len",
+            TcpSlice::from_slice(&all).ok().map(|s| {
+                if s.payload().len() == payload.len() && s.options().len() == area.len() {
+                    want.clone()
+                } else {
+                    format!("options={},payload={}", s.options().len(), s.payload().len())
+                }
+            }),
+        );
+        chk("tcp_header_slice", TcpHeaderSlice::from_slice(&all).ok().map(|s| elems_of(s.options_iterator())));
+        chk("tcp_header_from_slice", TcpHeader::from_slice(&all).ok().map(|x| elems_of(x.0.options_iterator())));
+        chk("tcp_slice_to_header", TcpSlice::from_slice(&all).ok().map(|s| elems_of(s.to_header().options_iterator())));
+        chk(
+            "tcp_header_read",
+            TcpHeader::read(&mut std::io::Cursor::new(&all[..])).ok().map(|x| elems_of(x.options_iterator())),
+        );
+        chk("tcp_header_read_chunked", TcpHeader::read(&mut Dribble(&all[..])).ok().map(|x| elems_of(x.options_iterator())));
+        let _ = hl;
+    }
+    diffs
+}
+
 fn show_opts(o: &TcpOptions) -> String {
     format!(
         "ok({},len={},doff={})",
@@ -222,7 +287,16 @@ pub fn run(op: &str, a: &[&str]) -> Option<String> {
         }
         ("opt.iter", [h]) => {
             let b = hex(h)?;
-            drive(&b, TcpOptionsIterator::from_slice(&b)).0
+            let main = drive(&b, TcpOptionsIterator::from_slice(&b)).0;
+            // the same option area inside a TCP header, through every door that hands out an options
+            // iterator: the elements have to be the ones of the raw area (and nothing of the payload)
+            if b.len() % 4 == 0 && b.len() <= 40 {
+                let diffs = header_doors(&b);
+                if !diffs.is_empty() {
+                    return Some(format!("{}!doors-differ({})", main, diffs.join(";")));
+                }
+            }
+            main
         }
         ("opt.reenc", [h]) => {
             let b = hex(h)?;
